@@ -37,6 +37,10 @@
 
   `Variant` selects the body of the `case <-syncDone.Done()` clause: `asFound` is the code of the
   snapshot, `repaired` the code after `pending/C20-fix-flush.patch`.
+
+  Not modelled: a `Writef` call below the log level returns before the send and produces no entry;
+  formatting of the line (`writeLine`/`writeJson`) — an entry is its final bytes; more than one
+  `FlushLogger` call per flusher (`panic.go` and `application.go` call it once before exiting).
 -/
 import TarsModel.Generated.Consts
 
